@@ -594,6 +594,7 @@ func init() {
 		rulePredictSubset(r, "layout-primary", []string{"/O4-", "/O5-", "/O1-", "/O3-"})
 		ruleLayout(r)
 		ruleSplice(r)
+		rulePosCodec(r)
 	},
 		"Decides structural necessary conditions of the fsck invariant, not the invariant over reachable disk states: no location is put on the freelist unless the index stopped naming it on that path; FirstFile advances only past a file shown empty and only when it is the header's first file, and the file is unlinked only after the header write; all scanners/readers honour the deleted bit; a merged free span grows by exactly the bytes the scanner advances over (log stays framed); the rescan applies every non-deleted record; writer, rescan and GC agree on the bucket position convention; writer and reader tables of the index entry, index log record, freelist entry and primary record agree (affine). Not covered: sortedness/prefix-freeness of entries, that entries point at records carrying the right key, division-based absolute-position arithmetic.")
 }
